@@ -90,5 +90,68 @@ mut("v9-coe-constant", "parallel/parallel.go.tmpl", "{{ with .ContinueOnError -}
 mut("v9-drop-concurrency", "flow/flow.go.tmpl", "			{{ with .Concurrency -}} Concurrency: {{ expr . }}, {{ end -}}\n", "", ["V9"])
 mut("v9-emitters-only-first", "shared/emitter.go.tmpl", "			{{- range . -}}\n				{{ expr . }},\n			{{- end -}}", "			{{ expr (index . 0) }},", ["V9"])
 mut("v6-call-in-loop", "flow/task.go.tmpl", "	{{ template \"taskResultList\" . }}{{ if or .Function.HasError (len .Outputs) }} = {{ end }}{{ expr .Function.Node }}{{ template \"callTaskArgs\" . }}\n", "	for i := 0; i < 2; i++ {\n	{{ template \"taskResultList\" . }}{{ if or .Function.HasError (len .Outputs) }} = {{ end }}{{ expr .Function.Node }}{{ template \"callTaskArgs\" . }}\n	}\n", ["V1"])
+
+mut("v10-drop-val-copy", "parallel/slice.go.tmpl", "	val := val\n	{{ $t }} := new(", "	{{ $t }} := new(", ["V10"], why="go<1.22: all jobs see last element")
+mut("v10-drop-key-copy-map", "parallel/map.go.tmpl", "	key := key\n", "", ["V10"])
+mut("v10-end-inside-loop", "parallel/map.go.tmpl", """	{{- if .MapEndFn }} ) {{ end }}
+}
+
+{{ with .MapEndFn -}}""", """	{{- if .MapEndFn }} ) {{ end }}
+
+{{ with .MapEndFn -}}""", ["V10"], edits=[dict(file=T+"parallel/map.go.tmpl", old="""		},
+	})
+{{ end }}
+
+{{- define "callMap" -}}""", new="""		},
+	})
+{{ end }}
+}
+
+{{- define "callMap" -}}""")])
+mut("v10-shared-task-struct", "parallel/slice.go.tmpl", "	{{ $t }} := new({{ template \"task\" }})\n	{{ $t }}.fn", "	{{ $t }} := {{ $t }}Shared\n	{{ $t }}.fn", [], edits=[dict(file=T+"parallel/slice.go.tmpl", old="\nfor {{if or .HasIndexParameter", new="\n{{ $t }}Shared := new({{ template \"task\" }})\nfor {{if or .HasIndexParameter")], why="benign: Run: x.fn copies the func value at Enqueue time", benign=True)
+mut("v10-slice-jobs-index0", "parallel/slice.go.tmpl", "	 	{{ $t }}Jobs[idx] =", "	 	{{ $t }}Jobs[0] =", ["V10"])
+mut("v11-drop-gate", "flow/task.go.tmpl", """	{{ if .Predicate }}
+		if !p{{ predHash .Predicate }} {
+			return nil
+		}
+	{{ end }}
+""", "", ["V11"])
+mut("v11-gate-inverted", "flow/task.go.tmpl", "		if !p{{ predHash .Predicate }} {\n			return nil", "		if p{{ predHash .Predicate }} {\n			return nil", ["V11"])
+mut("v11-gate-returns-error", "flow/task.go.tmpl", "		if !p{{ predHash .Predicate }} {\n			return nil", "		if !p{{ predHash .Predicate }} {\n			return {{ $context }}.Canceled", ["V11"])
+mut("v11-pred-fails-flow", "flow/predicate.go.tmpl", "	    p{{ predHash . }}PanicRecover = recovered\n", "	    p{{ predHash . }}PanicRecover = recovered\n	    err = &{{ $cff }}.PanicError{Value: recovered}\n", ["V11"])
+mut("v12-fallback-error-only", "flow/task.go.tmpl", """			taskEmitter.TaskPanicRecovered(ctx, recovered)
+			{{ template "taskResultList" . }} = {{ range $i, $v := .FallbackWithResults -}}
+				{{ if gt $i 0 }},{{ end }}{{ expr $v }}
+			{{- end }}{{ if gt (len .FallbackWithResults) 0 }}, {{ end }} nil
+""", """			taskEmitter.TaskPanicRecovered(ctx, recovered)
+			err = &{{ $cff }}.PanicError{Value: recovered}
+""", ["V12"], why="fallback not applied on panic")
+mut("v12-fallback-on-success", "flow/task.go.tmpl", """		} else {
+			taskEmitter.TaskSuccess(ctx)
+		}""", """		} else {
+			taskEmitter.TaskSuccess(ctx)
+			{{ if .FallbackWith }}{{ template "taskResultList" . }} = {{ range $i, $v := .FallbackWithResults -}}
+				{{ if gt $i 0 }},{{ end }}{{ expr $v }}
+			{{- end }}{{ if gt (len .FallbackWithResults) 0 }}, {{ end }} nil{{ end }}
+		}""", ["V12"])
+mut("v17-ran-plain-bool", "flow/types.go.tmpl", "		ran     {{ $cff }}.AtomicBool\n		run     func", "		ran     struct{ v bool }\n		run     func", ["V16"])
+
+mut("v13-success-before-error-test", "flow/task.go.tmpl", """	{{ if .Function.HasError -}}
+		if err != nil {""", """	{{ if .Function.HasError -}}
+		taskEmitter.TaskSuccess(ctx)
+		if err != nil {""", ["V13"], edits=[dict(file=T+"flow/task.go.tmpl", old="""		} else {
+			taskEmitter.TaskSuccess(ctx)
+		}""", new="		}")])
+mut("v13-drop-flowdone", "flow/flow.go.tmpl", "	defer func() { flowEmitter.FlowDone(ctx, {{ import \"time\" }}.Since(startTime)) }()\n", "	_ = startTime\n", ["V13"])
+mut("v13-flowdone-not-first", "flow/flow.go.tmpl", "	defer func() { flowEmitter.FlowDone(ctx, {{ import \"time\" }}.Since(startTime)) }()\n", "", ["V13"], edits=[dict(file=T+"flow/flow.go.tmpl", old="	{{ range $flow.TopoFuncs }}", new="	defer func() { flowEmitter.FlowDone(ctx, {{ import \"time\" }}.Since(startTime)) }()\n	{{ range $flow.TopoFuncs }}")], why="Done emitted before TaskSkipped sweep")
+mut("v13-ran-before-gate", "flow/task.go.tmpl", "	defer {{ $t }}.ran.Store(true)\n", "", ["V13"], edits=[dict(file=T+"flow/task.go.tmpl", old="	{{ if .Predicate }}\n		if !p{{ predHash .Predicate }} {", new="	defer {{ $t }}.ran.Store(true)\n	{{ if .Predicate }}\n		if !p{{ predHash .Predicate }} {")], why="predicate-false task reports TaskDone, never TaskSkipped")
+mut("v13-taskdone-unguarded", "parallel/task.go.tmpl", "		if {{ $t }}.ran.Load() {\n			taskEmitter.TaskDone(ctx, {{ import \"time\" }}.Since(startTime))\n		}", "		taskEmitter.TaskDone(ctx, {{ import \"time\" }}.Since(startTime))", ["V13"])
+mut("v13-panic-events-swapped", "flow/task.go.tmpl", "			taskEmitter.TaskPanicRecovered(ctx, recovered)", "			taskEmitter.TaskPanic(ctx, recovered)", ["V13"])
+mut("v13-task-not-swept", "parallel/task.go.tmpl", "tasks = append(tasks, task{{ .Serial }})", "_ = tasks", ["V13"])
+mut("v13-flowerror-wrong-arg", "flow/flow.go.tmpl", "		flowEmitter.FlowError(ctx, err)\n		return err", "		flowEmitter.FlowError(ctx, ctx.Err())\n		return err", ["V13"])
+mut("v13-parallel-taskerror-missing", "parallel/task.go.tmpl", "			taskEmitter.TaskError(ctx, err)\n			return\n", "			return\n", ["V13"])
+mut("v13-sweep-ignores-ran", "parallel/parallel.go.tmpl", "			if !t.ran.Load() {\n				t.emitter.TaskSkipped(ctx, err)\n			}", "			t.emitter.TaskSkipped(ctx, err)", ["V13"])
+mut("v13-nop-emitter-always", "flow/task.go.tmpl", "	{{- if .Instrument -}}\n		emitter.TaskInit(", "	{{- if false -}}\n		emitter.TaskInit(", ["V13"])
+mut("v13-success-on-parallel-error-path", "parallel/task.go.tmpl", "			taskEmitter.TaskError(ctx, err)\n			return\n", "			taskEmitter.TaskError(ctx, err)\n", ["V13"])
 json.dump(M, open(__file__.replace("gen_tmpl.py", "tmpl.json"), "w"), indent=1)
 print(len(M), "mutants")
